@@ -166,9 +166,9 @@ func (uconn *UConn) buildHandshakeState(loadSession bool) error {
 }
 
 func (uconn *UConn) uLoadSession() error {
-	if cfg := uconn.config; cfg.SessionTicketsDisabled || cfg.ClientSessionCache == nil {
-		return nil
-	}
+	// No early return when the cache is nil: a session injected through
+	// SetSessionTicketExtension/SetPskExtension must still be applied, and
+	// conn.loadSession checks SessionTicketsDisabled/ClientSessionCache itself.
 	switch uconn.sessionController.shouldLoadSession() {
 	case shouldReturn:
 	case shouldSetTicket:
